@@ -420,3 +420,209 @@ func TestVerifReplay_HTLCHelperOutputWitness(t *testing.T) {
 		t.Fatalf("CONFIRMED: the mint refuses the output witness made by nut14.AddWitnessHTLCToOutputs: %v", err)
 	}
 }
+
+// ---- crash / storage-fault points (C07) ---------------------------------
+
+// vAt arms the wrapper: the nth call (1-based) of method `call` crashes or fails.
+func vAt(db *vDB, call string, nth int, crash bool) {
+	seen := 0
+	db.fail, db.crash = map[int]bool{}, map[int]bool{}
+	db.onCall = func(n int, name string) {
+		if name == call {
+			seen++
+			if seen == nth {
+				if crash {
+					db.crash[n] = true
+				} else {
+					db.fail[n] = true
+				}
+			}
+		}
+	}
+}
+
+// vRun runs f, swallowing the simulated crash.
+func vRun(f func()) (crashed bool) {
+	defer func() {
+		if r := recover(); r != nil {
+			if _, ok := r.(vCrash); ok {
+				crashed = true
+				return
+			}
+			panic(r)
+		}
+	}()
+	f()
+	return false
+}
+
+type vCrashArgs struct {
+	Call  string
+	Nth   int
+	Crash bool
+}
+
+func vRestart(t *testing.T, m *Mint, path string, ln lightning.Client) *Mint {
+	m.Shutdown()
+	m2, err := LoadMint(Config{MintPath: path, LightningClient: ln, LogLevel: Disable})
+	if err != nil {
+		t.Fatalf("CONFIRMED: the mint does not start again on the same data directory: %v", err)
+	}
+	t.Cleanup(func() { m2.Shutdown() })
+	return m2
+}
+
+func vMintAt(t *testing.T, path string, ln lightning.Client) *Mint {
+	m, err := LoadMint(Config{MintPath: path, LightningClient: ln, LogLevel: Disable})
+	if err != nil {
+		t.Fatal(err)
+	}
+	return m
+}
+
+// Swap dies (or gets a storage error) at a store call: afterwards inputs that
+// are SPENT must have restorable outputs.
+func TestVerifReplay_SwapCrashPoint(t *testing.T) {
+	a := vCrashArgs{Call: "SaveBlindSignatures", Nth: 1, Crash: true}
+	vArgs(t, &a)
+	path := t.TempDir()
+	ln := &lightning.FakeBackend{}
+	m := vMintAt(t, path, ln)
+	ps := vMintProofs(t, m, []uint64{4, 2})
+	o := vOutputs(t, m, []uint64{4, 2})
+	db := &vDB{MintDB: m.db}
+	real := m.db
+	m.db = db
+	vAt(db, a.Call, a.Nth, a.Crash)
+	var err error
+	vRun(func() { _, err = m.Swap(ps, o.bms) })
+	m.db = real
+	if !a.Crash && err == nil {
+		t.Skip("no error")
+	}
+	m2 := vRestart(t, m, path, ln)
+	spent := 0
+	for _, s := range vStates(t, m2, ps) {
+		if s == nut07.Spent {
+			spent++
+		}
+	}
+	outs, _, err := m2.RestoreSignatures(o.bms)
+	if err != nil {
+		t.Fatal(err)
+	}
+	if spent > 0 && len(outs) < len(o.bms) {
+		t.Fatalf("CONFIRMED: swap interrupted at %s (crash=%v): %d inputs are SPENT but only %d of %d outputs can be restored", a.Call, a.Crash, spent, len(outs), len(o.bms))
+	}
+}
+
+// MintTokens dies / fails at a store call: the paid quote must stay usable or
+// its outputs restorable.
+func TestVerifReplay_MintCrashPoint(t *testing.T) {
+	a := vCrashArgs{Call: "SaveBlindSignatures", Nth: 1, Crash: true}
+	vArgs(t, &a)
+	path := t.TempDir()
+	ln := &vLN{FakeBackend: &lightning.FakeBackend{}, unsettled: false}
+	m := vMintAt(t, path, ln)
+	q, err := m.RequestMintQuote(nut04.PostMintQuoteBolt11Request{Amount: 6, Unit: "sat"})
+	if err != nil {
+		t.Fatal(err)
+	}
+	time.Sleep(150 * time.Millisecond)
+	if _, err := m.GetMintQuoteState(q.Id); err != nil {
+		t.Fatal(err)
+	}
+	o := vOutputs(t, m, []uint64{4, 2})
+	db := &vDB{MintDB: m.db}
+	real := m.db
+	m.db = db
+	vAt(db, a.Call, a.Nth, a.Crash)
+	vRun(func() { _, err = m.MintTokens(nut04.PostMintBolt11Request{Quote: q.Id, Outputs: o.bms}) })
+	m.db = real
+	if !a.Crash && err == nil {
+		t.Skip("no error")
+	}
+	m2 := vRestart(t, m, path, ln)
+	outs, _, err := m2.RestoreSignatures(o.bms)
+	if err != nil {
+		t.Fatal(err)
+	}
+	if len(outs) == len(o.bms) {
+		return // outputs recoverable
+	}
+	o2 := vOutputs(t, m2, []uint64{4, 2})
+	if _, err := m2.MintTokens(nut04.PostMintBolt11Request{Quote: q.Id, Outputs: o2.bms}); err != nil {
+		q2, _ := m2.GetMintQuoteState(q.Id)
+		t.Fatalf("CONFIRMED: mint interrupted at %s (crash=%v): invoice paid, no outputs restorable, and the quote (state %v) cannot be minted: %v", a.Call, a.Crash, q2.State, err)
+	}
+}
+
+// MeltTokens dies / fails at a store call: inputs that stay PENDING must
+// belong to a quote that is PENDING (so that polling can resolve them).
+func TestVerifReplay_MeltCrashPoint(t *testing.T) {
+	a := vCrashArgs{Call: "UpdateMeltQuote", Nth: 1, Crash: true}
+	vArgs(t, &a)
+	path := t.TempDir()
+	fail := a.Call == "RemovePendingProofs"
+	ln := &lightning.FakeBackend{}
+	m := vMintAt(t, path, ln)
+	ps := vMintProofs(t, m, []uint64{64, 8})
+	req, _, _, err := lightning.CreateFakeInvoice(50, fail)
+	if err != nil {
+		t.Fatal(err)
+	}
+	mq, err := m.RequestMeltQuote(nut05.PostMeltQuoteBolt11Request{Request: req, Unit: "sat"})
+	if err != nil {
+		t.Fatal(err)
+	}
+	db := &vDB{MintDB: m.db}
+	real := m.db
+	m.db = db
+	vAt(db, a.Call, a.Nth, a.Crash)
+	vRun(func() { _, err = m.MeltTokens(context.Background(), nut05.PostMeltBolt11Request{Quote: mq.Id, Inputs: ps}) })
+	m.db = real
+	if !a.Crash && err == nil {
+		t.Skip("no error")
+	}
+	m2 := vRestart(t, m, path, ln)
+	q2, err := m2.GetMeltQuoteState(context.Background(), mq.Id)
+	if err != nil {
+		t.Fatal(err)
+	}
+	pending := 0
+	for _, s := range vStates(t, m2, ps) {
+		if s == nut07.Pending {
+			pending++
+		}
+	}
+	if pending > 0 && q2.State != nut05.Pending {
+		t.Fatalf("CONFIRMED: melt interrupted at %s (crash=%v): %d inputs stay PENDING while the quote is %v: nothing will ever release or settle them", a.Call, a.Crash, pending, q2.State)
+	}
+}
+
+// RotateKeyset dies / fails between its two writes: the mint must start again.
+func TestVerifReplay_RotateCrashPoint(t *testing.T) {
+	a := vCrashArgs{Call: "SaveKeyset", Nth: 1, Crash: true}
+	vArgs(t, &a)
+	path := t.TempDir()
+	ln := &lightning.FakeBackend{}
+	m := vMintAt(t, path, ln)
+	db := &vDB{MintDB: m.db}
+	real := m.db
+	m.db = db
+	vAt(db, a.Call, a.Nth, a.Crash)
+	var err error
+	vRun(func() { _, err = m.RotateKeyset(100) })
+	m.db = real
+	if !a.Crash && err == nil {
+		t.Skip("no error")
+	}
+	m.Shutdown()
+	vNoPanic(t, "LoadMint after an interrupted rotation", func() {
+		m2, err := LoadMint(Config{MintPath: path, LightningClient: ln, LogLevel: Disable})
+		if err != nil {
+			t.Fatalf("CONFIRMED: the mint does not start after an interrupted rotation: %v", err)
+		}
+		m2.Shutdown()
+	})
+}
